@@ -462,6 +462,11 @@ def sorted_symseq(ip, seq, key, reverse):
   return out
 
 
+PURE_STR_PRED = ('startswith', 'endswith', 'isdigit', 'isalpha', 'isalnum', 'islower', 'isupper',
+                 'isspace', 'isidentifier', 'isnumeric')
+PURE_STR_FUN = ('strip', 'lstrip', 'rstrip', 'lower', 'upper', 'title', 'replace', 'casefold')
+
+
 def value_getattr(ip, obj, name):
   """methods of scalar values (str, tuple, z3 terms) -- everything string-like is delegated to
   harness extension points so that each property states which string axioms it relies on."""
@@ -485,6 +490,27 @@ def value_getattr(ip, obj, name):
             return hh(ip2, ('format', _o), tuple(args) + tuple(sorted(kw.items())))
         raise EngineError("str.%s with symbolic arguments" % _n)
       return Builtin('str.' + name, call)
+  if is_z3(obj) and obj.sort() == Atom and name in PURE_STR_PRED + PURE_STR_FUN:
+    # pure str method on an opaque string: an uninterpreted function of (receiver, literal args).
+    # Sound over-approximation; a refutation that depends on it cannot be concretised.
+    def call(ip2, args, kw, _o=obj, _n=name):
+      key = []
+      zargs = [_o]
+      for a_ in args:
+        if isinstance(a_, str):
+          a_ = ip2.atom(a_)
+        if is_z3(a_):
+          zargs.append(a_)
+          key.append(str(a_.sort()))
+        elif isinstance(a_, (int, bool)):
+          zargs.append(z3.IntVal(int(a_)))
+          key.append('Int')
+        else:
+          raise EngineError("str.%s with argument %r" % (_n, a_))
+      rs = z3.BoolSort() if _n in PURE_STR_PRED else Atom
+      f = z3.Function('str.%s/%s' % (_n, '_'.join(key)), *([x.sort() for x in zargs] + [rs]))
+      return f(*zargs)
+    return Builtin('str.' + name, call)
   from .interp import DictLit
   if isinstance(obj, DictLit):
     if name == 'items':
